@@ -19,6 +19,8 @@ inductive Fault where
   | setInitialParameter | setInitialUnknown | unknownConstraintGrid | unknownSampleGrid
   | foreignSymbol | constantFalseConstraint | algWithRk | algWithEuler | horizonInOde
   | rootsUnderMultipleShooting | rootsUnderSingleShooting | splineNonlinearOrTimeVarying
+  /-- a `grid='inf'` constraint with an operation that cannot be re-evaluated on splines (division, `==`, …) -/
+  | infUnsupportedOperation
 deriving DecidableEq, Repr
 
 /-- the guard (row of the generated table) that rejects a fault, and the phase in which it fires -/
@@ -44,12 +46,14 @@ def Fault.guard : Fault → String × Phase
   | .rootsUnderMultipleShooting => ("roots_constraint_under_multiple_shooting", .transcription)
   | .rootsUnderSingleShooting => ("roots_constraint_under_single_shooting", .transcription)
   | .splineNonlinearOrTimeVarying => ("spline_time_varying_or_nonlinear", .transcription)
+  | .infUnsupportedOperation => ("inf_unsupported_operation", .transcription)
 
 def allFaults : List Fault :=
   [.missingDerivative, .missingUpdateRule, .missingParameterValue, .noMethod, .noSolver, .signalObjective,
    .nonscalarObjective, .setValueNonParameter, .setValueNonParameterLive, .setInitialParameter, .setInitialUnknown,
    .unknownConstraintGrid, .unknownSampleGrid, .foreignSymbol, .constantFalseConstraint, .algWithRk, .algWithEuler,
-   .horizonInOde, .rootsUnderMultipleShooting, .rootsUnderSingleShooting, .splineNonlinearOrTimeVarying]
+   .horizonInOde, .rootsUnderMultipleShooting, .rootsUnderSingleShooting, .splineNonlinearOrTimeVarying,
+   .infUnsupportedOperation]
 
 def guardPresent (tbl : List (String × Bool)) (name : String) : Bool :=
   tbl.any (fun g => g.1 == name && g.2)
